@@ -143,6 +143,9 @@ def run(chk: Check, eng: Engine) -> None:
     _memo = memo_attribute(eng, _parser)
     _g, _s = memo_helpers(_parser, _memo)
     _key_rule(chk, eng, _parser, _memo, _g, _s, rule="R04-g", only={"mode", "start", "word"})
+    chk.rule("R04-j", "the verdicts the API filter relies on come from a memo whose key distinguishes bindings (get_hash covers the items of scope and local variables)", floor=3)
+    from .c11 import gethash_rule
+    gethash_rule(chk, eng, "R04-j")
     chk.rule("R04-i", "byte and regex terminals are scanned only at byte-aligned columns of the bit-indexed parse table", floor=2)
     rule_i(chk, eng)
     chk.rule("R04-h", "ids of implicit grammar nodes are unique across the specs merged into one grammar: per-spec counters are qualified by a prefix "
